@@ -541,3 +541,13 @@ Definition allowed_trivial : list string :=
    "Eq"; "NotEq"; "Lt"; "LtE"; "Gt"; "GtE"; "Is"; "IsNot"; "In"; "NotIn"].
 Definition trivial_ok (l : list string) : bool :=
   forallb (fun n => existsb (String.eqb n) allowed_trivial) l && existsb (String.eqb "Name") l.
+
+(* Generated/C18_gen.v gives the template _do_transform_node instantiates for every hoisted operand and the
+   names of its two placeholders.  The model's hoisted statement is `SAssign [ETmp n] e` with e the operand
+   itself: the template must be exactly "<target> = <value>" with two different placeholder names.  (That
+   the template engine fills the placeholders without looking into the operand -- variables of the program
+   spelled like a placeholder stay what they are -- is the renaming invariance AnfRenameProofs.transform_ren
+   of the model, tied to the implementation by the hygiene stream of the check.) *)
+Definition hoist_template_ok (t : string * string * string) : bool :=
+  let '(text, target, value) := t in
+  negb (String.eqb target value) && String.eqb text (target ++ " = " ++ value)%string.
